@@ -1,6 +1,6 @@
 //! C01 — fixed-point helpers return the exactly rounded value or fail (E1).
 use gmsol_model::{
-    fixed::{Fixed, FixedPointOps},
+    fixed::Fixed,
     num::{MulDiv, Unsigned},
     utils,
 };
